@@ -273,12 +273,27 @@ def eqv(exp, got, path="$"):
             d = eqv(a, got[i], f"{path}[{i}]")
             if d:
                 return d
+        # the same elements in the same order by iteration (a second access path through the container)
+        walked = list(iter(got))
+        if len(walked) != len(exp):
+            return f"{path}: iteration yields {len(walked)} elements, expected {len(exp)}"
+        for i, a in enumerate(exp):
+            d = eqv(a, walked[i], f"{path}<iter {i}>")
+            if d:
+                return d
         return None
     if isinstance(exp, dict):
         if not isinstance(got, Mapping) or set(got.keys()) != set(exp.keys()):
             return f"{path}: expected mapping with keys {sorted(exp)}, got {type(got).__name__} {got!r:.60}"
         for kk in exp:
             d = eqv(exp[kk], got[kk], f"{path}[{kk!r}]")
+            if d:
+                return d
+        items = dict(got.items())
+        if set(items) != set(exp):
+            return f"{path}: items() yields keys {sorted(items)}, expected {sorted(exp)}"
+        for kk in exp:
+            d = eqv(exp[kk], items[kk], f"{path}<items {kk!r}>")
             if d:
                 return d
         return None
@@ -343,9 +358,30 @@ def gen_case(streams, tier):
             nm = w.choice(NAMES)
             ops.append({"op": "set", "h": w.choice(hs), "name": nm, "value": value_for(nm),
                         "as_attribute_object": w.random() < 0.35})
-        elif r < 0.42:
+        elif r < 0.40:
             ops.append({"op": "del", "h": w.choice(hs), "name": w.choice(NAMES)})
-        elif r < 0.62:
+        elif r < 0.45:
+            # in-place edit of a list / dict attribute through the object the dataset hands out
+            h_ed = w.choice(hs)
+            cands = [n for n in last if last[n][0] in ("list", "dict")]
+            if cands and w.random() < 0.6:
+                nm = w.choice(cands)
+            else:
+                # make sure there is a container to edit: assign one first, on the same handle
+                nm = w.choice(NAMES)
+                if w.random() < 0.7:
+                    spec = ["list", [gen_value(w, 2) for _ in range(w.randint(2, 5))]]
+                else:
+                    spec = ["dict", {f"k{i}": gen_value(w, 2) for i in range(w.randint(1, 3))}]
+                last[nm] = spec
+                ops.append({"op": "set", "h": h_ed, "name": nm, "value": spec, "as_attribute_object": True})
+            is_list = last[nm][0] == "list"
+            for _ in range(w.randint(1, 3)):
+                ops.append({"op": "edit", "h": h_ed, "name": nm,
+                            "act": w.choice(["setitem", "setitem", "insert", "insert", "append", "delitem", "pop"]
+                                            if is_list else ["dict_set", "dict_set", "dict_del"]),
+                            "idx": w.getrandbits(12), "value": gen_value(w, 2)})
+        elif r < 0.64:
             ops.append({"op": "write", "h": w.choice(hs), "path": w.choice(PATHS),
                         "mode": w.choice(["w", "w", "a", "a", "w-"]),
                         "subset": w.random() < 0.3, "pick": w.getrandbits(16),
@@ -673,6 +709,57 @@ def _run_case(case, _record=False):
                             del h.attrs[op["name"]]
                     if h.kind == "file":
                         touched.append(h.path)
+                elif k == "edit":
+                    if op["h"] >= len(handles):
+                        continue
+                    h = handles[op["h"]]
+                    if h.kind == "file":
+                        target_paths = [h.path]
+                    if h.closed or h.tainted or h.ro:
+                        continue
+                    cur = h.attrs.get(op["name"])
+                    act, idx = op["act"], op["idx"]
+                    want_dict = act.startswith("dict_")
+                    if (want_dict and type(cur) is not dict) or (not want_dict and type(cur) is not list):
+                        continue
+                    if act in ("setitem", "delitem", "pop") and not cur:
+                        continue
+                    if act == "dict_del" and not cur:
+                        continue
+                    obj = getattr(h.ds, op["name"])
+                    val, mval = build_value(op["value"]), build_model(op["value"])
+                    counters["in_place_edits"] = counters.get("in_place_edits", 0) + 1
+                    # the model value is replaced, never mutated: other model files may share the old object
+                    if act == "setitem":
+                        i = idx % len(cur)
+                        obj[i] = val
+                        h.attrs[op["name"]] = cur[:i] + [mval] + cur[i + 1:]
+                    elif act == "insert":
+                        i = idx % (len(cur) + 1)
+                        obj.insert(i, val)
+                        h.attrs[op["name"]] = cur[:i] + [mval] + cur[i:]
+                    elif act == "append":
+                        obj.append(val)
+                        h.attrs[op["name"]] = cur + [mval]
+                    elif act == "delitem":
+                        i = idx % len(cur)
+                        del obj[i]
+                        h.attrs[op["name"]] = cur[:i] + cur[i + 1:]
+                    elif act == "pop":
+                        obj.pop()
+                        h.attrs[op["name"]] = cur[:-1]
+                    elif act == "dict_set":
+                        keys = sorted(cur)
+                        key = keys[idx % len(keys)] if keys and idx % 2 else f"k{idx % 4}"
+                        obj[key] = val
+                        h.attrs[op["name"]] = dict(cur, **{key: mval})
+                    else:
+                        keys = sorted(cur)
+                        key = keys[idx % len(keys)]
+                        del obj[key]
+                        h.attrs[op["name"]] = {a: b for a, b in cur.items() if a != key}
+                    if h.kind == "file":
+                        touched.append(h.path)
                 elif k == "write":
                     if op["h"] >= len(handles):
                         continue
@@ -813,7 +900,7 @@ def _run_case(case, _record=False):
                 for h in handles:
                     if h.kind == "file" and h.path in bad:
                         h.tainted = True
-                if k in ("set", "del", "read", "write", "new") and op.get("h") is not None and op["h"] < len(handles):
+                if k in ("set", "del", "edit", "read", "write", "new") and op.get("h") is not None and op["h"] < len(handles):
                     handles[op["h"]].tainted = True
                 if k == "read" and op.get("src") == "handle" and op["sh"] < len(handles):
                     handles[op["sh"]].tainted = True
